@@ -351,6 +351,9 @@ def value_ok(tv, v, how, optional):
             return False
         if v.startswith("-") and (v.partition("=")[0] in tv.flagset or v[:2] in tv.flagset):
             return False
+        # a token spelled like a core flag belongs to the core: it is not the value of an optional-value flag
+        if v in tv.coreflags or (v.startswith("-") and (v.partition("=")[0] in tv.coreflags or v[:2] in tv.coreflags)):
+            return False
     if how == "glued" and (v == "" or v[0] == "="):
         return False
     return True
